@@ -226,8 +226,10 @@ RecvHs(s, r, c, ch) ==
     ELSE IF isHello /\ ~s.helloDone /\ c.retry THEN
         \* HelloRetryRequest (TLS 1.3) / HelloVerifyRequest (DTLS server): the hello is consumed, the
         \* endpoint stays where it was and expects a second hello; allowed once
-        IF s.retried THEN Fatal(s, <<m>>)
-        ELSE Result([s EXCEPT !.retried = TRUE, !.recvSeq = Append(s.recvSeq, m),
+        \* (a DTLS server answers every cookie-less hello statelessly, any number of times)
+        IF s.retried /\ ~s.cfg.dtls THEN Fatal(s, <<m>>)
+        ELSE Result([s EXCEPT !.retried = TRUE,
+                              !.recvSeq = IF s.retried THEN s.recvSeq ELSE Append(s.recvSeq, m),
                               !.tampered = s.tampered \/ ~r.gen], <<m>>, <<m>>, 0, FALSE, TRUE)
     ELSE
         LET hs2 == IF fam2 = "T13" THEN After13(s.role, s.hs, m, cc) ELSE AfterL(s.role, g, cc)
@@ -262,15 +264,14 @@ RecvCcs(s, r, ch) ==
     IF s.fam = "T13" THEN Result(s, <<>>, <<>>, 0, FALSE, TRUE)       \* ignored
     ELSE IF ~(r.gen \/ ch = "good") THEN Fatal(s, <<>>)               \* malformed body
     ELSE IF s.hs = "FINISHED" /\ ~ReadSecure(s) THEN
-        Result([s EXCEPT !.rd = "sec", !.recvSeq = Append(s.recvSeq, "CCS"),
-                         !.tampered = s.tampered \/ ~r.gen], <<>>, <<>>, 0, FALSE, TRUE)
+        \* (ChangeCipherSpec is not a handshake message: not in the transcript)
+        Result([s EXCEPT !.rd = "sec", !.recvSeq = Append(s.recvSeq, "CCS")], <<>>, <<>>, 0, FALSE, TRUE)
     ELSE IF s.role = "C" /\ s.cfg.limbo /\ ~ReadSecure(s) /\ s.hs \in {"CERTIFICATE", "SERVER_KEY_EXCHANGE"} THEN
         \* sslDecode.c "SESS_TICKET_STATE_IN_LIMBO": the server took the ticket without saying so; its
         \* ChangeCipherSpec right after ServerHello is the first sign that this is a resumed handshake
         Result([s EXCEPT !.rd = "sec", !.hs = "FINISHED", !.wr = "sec",
                          !.cfg = [s.cfg EXCEPT !.resumed = TRUE, !.limbo = FALSE],
-                         !.recvSeq = Append(s.recvSeq, "CCS"),
-                         !.tampered = s.tampered \/ ~r.gen], <<>>, <<>>, 0, FALSE, TRUE)
+                         !.recvSeq = Append(s.recvSeq, "CCS")], <<>>, <<>>, 0, FALSE, TRUE)
     ELSE Fatal(s, <<>>)
 
 (* sslDecode.c:1648-1664, tls13Decode.c:457-487 *)
@@ -310,7 +311,10 @@ Pending(s, rpass) ==
 \* which choices make sense for this record in this state
 AllowedChoices(s, r) ==
     LET v == Verdict(s, r) IN
-    IF s.desync THEN {"rlfail", "part"}
+    \* DTLS: a datagram that is incomplete, duplicated, out of order or fails authentication may be
+    \* discarded silently (RFC 6347 4.1.2.7); "part" stands for that on DTLS sessions
+    IF s.cfg.dtls THEN (IF r.gen /\ ~r.free THEN {"good", "part"} ELSE Choices)
+    ELSE IF s.desync THEN {"rlfail", "part"}
     ELSE IF v = "bad" THEN (IF r.frag THEN {"good", "part"} ELSE {"good"})
     ELSE IF v \in {"ignore", "plainalert"} THEN (IF r.gen THEN {"good"} ELSE IF r.frag THEN {"good", "bad", "part"} ELSE {"good", "bad"})
     ELSE IF v = "ok" THEN (IF r.gen THEN {"good"} ELSE {"good", "bad"})
@@ -321,7 +325,9 @@ AllowedChoices(s, r) ==
 (* One record handed to a live endpoint. *)
 Recv(s, r, c, ch) ==
     LET v == Verdict(s, r) IN
-    IF s.desync THEN
+    IF s.cfg.dtls /\ ch = "part" THEN
+        [Result(s, <<>>, <<>>, 0, FALSE, FALSE) EXCEPT !.loose = TRUE]      \* datagram discarded
+    ELSE IF s.desync THEN
         \* leftovers of an incomplete record are in front of it: dies or keeps waiting
         IF ch = "part" THEN Pending(s, FALSE)
         ELSE [Result(Kill(s, "fatalsent"), <<>>, <<>>, 0, TRUE, FALSE) EXCEPT !.loose = TRUE]
